@@ -45,7 +45,7 @@ def build(case):
             # changes length (ß) or that are not ASCII
             for pos in range(27, 243):
                 if rng.random() < 0.3:
-                    rec[pos] = rng.choice('abcdefghijxyz ßÄöü-,')
+                    rec[pos] = rng.choice('abcdefghijxyz -,' if case.get('rawgap') else 'abcdefghijxyz ßÄöü-,')
         rec[0:10] = '2023010100'
         rec[10:11] = rng.choice('AAI')        # the index entry's own active / inactive code does not select rows
         rec[11:19] = 'IP0000T1'
@@ -55,7 +55,8 @@ def build(case):
         subids.setdefault(t, []).append(sub)      # a table indexed twice owns BOTH sub-ids
         recs.append(''.join(rec))
         if rng.random() < 0.2:
-            recs.append('HEADER ' + ''.join(rng.choice(FILL) for _ in range(rng.randrange(20, 120))))
+            recs.append('HEADER ' + ''.join(rng.choice(FILL[:60] if case.get('rawgap') else FILL)
+                                            for _ in range(rng.randrange(20, 120))))
     if not case.get('notrailer'):
         recs.append('TRAILER RECORD IP0000T1  ' + f'{len(tables):08d}')
     expected = []
@@ -79,6 +80,15 @@ def build(case):
             effv = eff[:7]
         if rng.random() < 0.1 or (run_at is not None and run_at <= i < run_at + case['run']):
             row = row[:rng.randrange(11, 40)]        # short row: slices come back short, never an error
+        if case.get('rawgap') and lay:
+            # bytes the file's character set does not have, at positions NO column (and no header field) covers: a column is
+            # decoded from its own bytes, whatever stands between the columns
+            off = 0 if case['expanded'] else 8
+            covered = set(range(0, 19 - off))
+            for v in lay.values():
+                covered.update(range(v['start'] - off, v['end'] - off))
+            row = ''.join('\xe9' if (p not in covered and p % 3 == 0) else
+                          (ch if ord(ch) < 128 and ch not in '\x00\x7f' else 'x') for p, ch in enumerate(row))
         recs.append(row)
         if rng.random() < 0.08:
             # every table of a real extract ends with its own trailer row: not a row of any table, and NOT the end of the
@@ -90,7 +100,8 @@ def build(case):
             expected.append({'table_id': case['table'], 'effective_timestamp': effv, 'active_inactive_code': code,
                              **{c: row[v['start'] - off:v['end'] - off] for c, v in lay.items()}})
     from cardutil import mciipm
-    data = mciipm.vbs_list_to_bytes([r.encode(case['codec']) for r in recs], blocked=bool(case['b']))
+    enc = 'latin_1' if case.get('rawgap') else case['codec']
+    data = mciipm.vbs_list_to_bytes([r.encode(enc) for r in recs], blocked=bool(case['b']))
     if case.get('cut'):
         data = data[:len(data) - case['cut']]
     return data, expected
@@ -234,6 +245,8 @@ def explore(run, tier):
             t = rng.choice(tables)
             for expanded in (0, 1):
                 cases.append(dict(base, expanded=expanded, table=t, layout=lay))
+            for expanded in (0, 1):
+                cases.append(dict(base, expanded=expanded, table=t, layout=lay, codec='ascii', rawgap=True))
             if i % 12 == 0:
                 plain = dict(base, codec='latin_1')       # text free of characters the default CSV encoding lacks
                 cases.append(dict(plain, expanded=i % 24 // 12, table=t, layout=lay, cfgfile='file'))
